@@ -177,12 +177,20 @@ def make_interp(run):
         def ctor(ex, arr):
             o = Opaque(kind, array=arr)
             o._attrs["inv"] = Opaque(kind + ".inv", of=o)
+            # members of the matrix contract (C10) an adapter might use besides assigning the metric
+            o._attrs["inv"]._attrs["sqrt"] = Opaque(kind + ".inv.sqrt", __matmul__=Native(lambda ex_, v: Opaque("sqrt(metric) @ draw", draw=v), "sqrt.__matmul__"))
             mats.append(o)
             return o
         return Native(ctor, kind)
     it.overrides[(MOD, "PositiveDiagonalMatrix")] = mk_matrix("PositiveDiagonalMatrix")
     it.overrides[(MOD, "DensePositiveDefiniteMatrix")] = mk_matrix("DensePositiveDefiniteMatrix")
     return it
+
+
+def _rng_stub(c):
+    """contract of numpy.random.Generator as far as a momentum refresh could use it directly"""
+    return Opaque(f"rng{c}", standard_normal=Native(lambda ex_, size=None: Opaque(f"standard-normal-draw<rng{c}>", size=size), "rng.standard_normal"),
+                  normal=Native(lambda ex_, *a, **k: Opaque(f"normal-draw<rng{c}>"), "rng.normal"))
 
 
 def new_adapter(it, ctx, cls_name, **attrs):
@@ -243,11 +251,37 @@ def dual_averaging(run, it, only_search=False):
         it.explore(h_update, "dual.update")
 
     def h_finalize(ctx):
-        which = ctx.choose(4, "case")  # 0 single dict, 1..3 chains with each reducer
+        which = ctx.choose(5, "case")  # 0 single dict, 1..3 chains with each built-in reducer, 4 chains with ANY user-supplied reducer (contract stub)
         mod = it.module(MOD)
         integ = Opaque("integrator", step_size=z3.Real("old_step_size"))
         trans = Opaque("transition", integrator=integ)
         tag = P + cls + ".finalize"
+        if which == 4:
+            # "combined across chains by the chosen reducer": for any reducer, also one that is not the identity on a single value (a cap, a safety factor),
+            # and for a LIST of one adapter state (what the samplers pass for a single chain)
+            nchain = ctx.choose(3, "nchain") + 1
+            calls, reduced = [], z3.Real("reduced_by_the_chosen_reducer")
+            ctx.assume(reduced > 0)
+
+            def reducer(ex_, vals):
+                calls.append(list(ex_.iterate_concrete(vals)))
+                return reduced
+            ad, ex = new_adapter(it, ctx, cls, log_step_size_reducer=Native(reducer, "user_reducer"))
+            sms = [z3.Real(f"smoothed{c}") for c in range(nchain)]
+            sts = [{"iter": z3.Int(f"iter{c}"), "smoothed_log_step_size": sms[c], "adapt_stat_error": z3.Real(f"e{c}"),
+                    "log_step_size_reg_target": z3.Real(f"mu{c}")} for c in range(nchain)]
+            try:
+                ex.call(ex.getattr(ad, "finalize"), [sts, [Opaque("cs")] * nchain, trans, [Opaque("rng")] * nchain], {})
+            except PyRaise as pr:
+                ctx.run.ob(tag + "/list-of-chains-is-combined-by-the-chosen-reducer", core.FAILED, "pyvc", detail=f"{exc_name(pr.exc)}")
+                return
+            got = integ._attrs["step_size"]
+            ok = len(calls) == 1 and len(calls[0]) == nchain and all(is_z3(a) and a.eq(b) for a, b in zip(calls[0], sms)) and is_z3(got) and got.eq(reduced)
+            ctx.run.ob(tag + "/list-of-chains-is-combined-by-the-chosen-reducer", core.DISCHARGED if ok else core.FAILED, "pyvc",
+                       detail="" if ok else f"{nchain} chain(s): reducer called {len(calls)} time(s) with {calls[:1]}; step_size set to {got}",
+                       witness={"n_chain": nchain},
+                       text="finalize(list of n >= 1 adapter states): step_size = reducer([smoothed_0, ..., smoothed_{n-1}]), the reducer called once with every chain's smoothed iterate in order")
+            return
         if which == 0:
             ad, ex = new_adapter(it, ctx, cls, log_step_size_reducer=mod.resolve("arithmetic_mean_log_step_size_reducer", ctx))
             sm = z3.Real("smoothed")
@@ -276,7 +310,7 @@ def dual_averaging(run, it, only_search=False):
         else:
             ctx.prove(tag + "/min-reducer", z3.And(z3.Or(*[got == e for e in es]), *[got <= e for e in es]), text="min_c exp(smoothed_c)")
     if not only_search:
-        it.explore(h_finalize, "dual.finalize", roots=[[0], [1], [2], [3]])
+        it.explore(h_finalize, "dual.finalize", roots=[[0], [1], [2], [3], [4]])
 
     def h_initialize(ctx):
         has_target = ctx.choose(2, "target")
@@ -504,14 +538,14 @@ def variance(run, it):
             ctx.assume(n >= 0)
             m2 = z3.Real("sum_diff_sq")
             states = {"iter": n, "mean": Cell(z3.Real("mean")), "sum_diff_sq": Cell(m2)}
-            chain_states, rngs = Opaque("chain_state0", mom="old"), Opaque("rng0")
+            chain_states, rngs = Opaque("chain_state0", mom="old", pos=Opaque("pos0", shape=("n",))), _rng_stub(0)
             total_n, S1sq_over_n_plus = n, None
         else:
             ctx.assume(K >= 1)
             ctx.ghost["G"] = (z3.RealVal(0), z3.RealVal(0), z3.RealVal(0))
             states = ChainList(K)
-            chain_states = [Opaque(f"chain_state{c}", mom="old") for c in range(2)]
-            rngs = [Opaque(f"rng{c}") for c in range(2)]
+            chain_states = [Opaque(f"chain_state{c}", mom="old", pos=Opaque(f"pos{c}", shape=("n",))) for c in range(2)]
+            rngs = [_rng_stub(c) for c in range(2)]
 
             def havoc(ex_):
                 c = ex_.ctx
@@ -636,8 +670,8 @@ def covariance(run, it, tier):
         for n_ in ns:
             ctx.assume(n_ >= 1)
         sts = [{"iter": ns[c], "mean": CVec(*means[c]), "sum_diff_outer": CMat(Cs[c])} for c in range(nch)]
-        css = [Opaque(f"cs{c}", mom="old") for c in range(nch)]
-        rngs = [Opaque(f"rng{c}") for c in range(nch)]
+        css = [Opaque(f"cs{c}", mom="old", pos=Opaque(f"pos{c}", shape=("n",))) for c in range(nch)]
+        rngs = [_rng_stub(c) for c in range(nch)]
         tag = P + cls + ".finalize"
         try:
             if k == 0:
